@@ -35,6 +35,11 @@ type PanicInfo struct {
 func (p *PanicInfo) Key() string {
 	if p.Class == "stack-overflow" || p.Class == "hang" {
 		f := p.Frame
+		// the compiler package holds some forty unrelated passes: there the pass (receiver
+		// type) is the site; elsewhere the package is
+		if m := compilerPass.FindStringSubmatch(f); m != nil && p.Class == "stack-overflow" {
+			return p.Class + "@" + m[1]
+		}
 		if i := strings.LastIndex(f, "/"); i >= 0 {
 			if j := strings.Index(f[i:], "."); j >= 0 {
 				f = f[:i+j]
@@ -50,6 +55,8 @@ func (p *PanicInfo) Key() string {
 	}
 	return p.Class + "@" + p.Frame
 }
+
+var compilerPass = regexp.MustCompile(`^(github\.com/grafana/cog/internal/ast/compiler\.\(\*?[A-Za-z]+\))\.`)
 
 var assertedType = regexp.MustCompile(`interface \{\} is ([^,]+),`)
 
